@@ -17,6 +17,12 @@ import (
 	"golang.org/x/tools/go/packages"
 )
 
+type IHSub struct {
+	Name string
+	Expr ast.Expr
+	Line string
+}
+
 type Clause struct {
 	Text string
 	Expr ast.Expr
@@ -109,6 +115,7 @@ type Lemma struct {
 	Text     []string
 	Axiom    bool // assumed, listed in the trusted base
 	Induct   string
+	IHSubst  []IHSub
 	Uses     []Clause
 	Theory   string // axioms: the theory they belong to (added to functions that declare `theory <name>`)
 }
@@ -225,7 +232,7 @@ func (u *Universe) loadDeps(dir string) error {
 }
 
 var clauseWords = map[string]bool{"requires": true, "ensures": true, "modifies": true, "panics": true,
-	"loop": true, "repr": true, "inline": true, "props": true, "opaque": true, "unroll": true, "note": true, "induct": true, "cover": true,
+	"loop": true, "repr": true, "inline": true, "props": true, "opaque": true, "unroll": true, "note": true, "induct": true, "ihsubst": true, "cover": true,
 	"bv": true, "intvar": true, "theory": true, "returns": true, "decreases": true, "fieldmode": true, "variant": true, "let": true, "use": true, "check": true, "noframe": true, "borrowed": true, "specialize": true}
 
 func (u *Universe) parseContractFile(path, pkgPath string, deps bool) error {
@@ -688,6 +695,21 @@ func (u *Universe) parseContractFile(path, pkgPath string, deps bool) error {
 		case "induct":
 			if curL != nil {
 				curL.Induct = rest
+			}
+			lastClause = nil
+		case "ihsubst":
+			// ihsubst NAME = EXPR: the induction hypothesis (at n-1) is taken at this value of the other
+			// parameter NAME (any instance of the statement at n-1 may be assumed)
+			if curL != nil {
+				eq := strings.Index(rest, "=")
+				if eq < 0 {
+					return fmt.Errorf("%s: bad ihsubst clause", where)
+				}
+				ex, err := parser.ParseExpr(strings.TrimSpace(rest[eq+1:]))
+				if err != nil {
+					return fmt.Errorf("%s: %v", where, err)
+				}
+				curL.IHSubst = append(curL.IHSubst, IHSub{Name: strings.TrimSpace(rest[:eq]), Expr: ex, Line: where})
 			}
 			lastClause = nil
 		}
